@@ -59,7 +59,11 @@ type Ledger struct {
 	// exceptions (value held by a contract that self-destructed earlier in the
 	// same block and received more afterwards; it is deleted with the account
 	// when the block is finalised). Reported by the conservation oracle.
-	Lost    map[common.Address]*big.Int
+	Lost map[common.Address]*big.Int
+	// Forged is hidden value that deliberately unbalanced confidential
+	// transactions of the generator claimed without owning it and that the
+	// chain nevertheless accepted (value created; reported by the oracle).
+	Forged  map[common.Address]*big.Int
 	FeesSum *big.Int // Σ fees debited from payers = Σ credited to the collector
 	// Signers set by MultiSignAccountTx per supported type.
 	Signers map[types.SupportType]*types.SignersInfo
@@ -81,7 +85,7 @@ func NewLedger(collector common.Address) *Ledger {
 		Contracts: map[common.Address]*ContractInfo{},
 		Hidden:    map[common.Address][]*Hidden{},
 		known:     map[common.Address]bool{},
-		Issued:    map[common.Address]*big.Int{}, Destroyed: map[common.Address]*big.Int{}, Lost: map[common.Address]*big.Int{},
+		Issued:    map[common.Address]*big.Int{}, Destroyed: map[common.Address]*big.Int{}, Lost: map[common.Address]*big.Int{}, Forged: map[common.Address]*big.Int{},
 		FeesSum: new(big.Int), Signers: map[types.SupportType]*types.SignersInfo{},
 		Opaque: map[common.Address]bool{}, OpaqueTokens: map[common.Address]bool{}}
 	l.known[collector] = true
